@@ -209,7 +209,7 @@ def task(prop, seed, size, cfgbins):
 
 def run(prop, tier, seed, t0):
     from .. import plan
-    cfgs = ['simd', 'serial32', 'fiat64'] if tier == 'quick' else plan.ALL_CFGS
+    cfgs = ['simd', 'serial32', 'fiat64', 'avx512'] if tier == 'quick' else plan.ALL_CFGS
     bins, notes, failed = plan.bins_for(cfgs, ('rel', 'chk') if tier == 'thorough' else ('rel',))
     if failed:
         return plan.fail_build(prop, failed)
@@ -224,6 +224,6 @@ def run(prop, tier, seed, t0):
                             'class) matrix; random operation histories whose registers carry the exact internal coordinates '
                             '(raw limbs fed back through the hook); every result judged against the affine addition law and '
                             'the curve equation / XY=ZT on hooked coordinates; distinct = distinct (op,args)',
-                       required_classes=REQUIRED,
+                       required_classes=REQUIRED + c03v.REQUIRED_V,
                        assumptions=['oracle = complete affine twisted-Edwards addition law over Python ints',
                                     'x = 0 with sign bit set is accepted (dalek decoding rule as stated in the property)'] + notes)
